@@ -3,7 +3,8 @@ package filepool
 import (
 	"fmt"
 	"io"
-	"sort"
+	"sync"
+	"sync/atomic"
 
 	"github.com/buildbarn/bb-remote-execution/pkg/filesystem/pool"
 	"github.com/buildbarn/bb-storage/pkg/filesystem"
@@ -12,30 +13,43 @@ import (
 	"google.golang.org/grpc/status"
 )
 
-// faultPlan numbers every fallible call the pool makes into its
-// environment (device I/O, hole source, base pool, allocator) and makes
-// exactly the call with index failAt misbehave in the way named by kind.
-type faultPlan struct {
-	failAt int // -1: never
-	kind   string
-	n      int
-	sites  []string // site of every counted call, by index
-	fired  bool
-	paused bool // verification reads of the harness itself are not counted
+// faultSpec names one injected fault: the fallible call with the given
+// index (in the numbering of the run it is injected into) misbehaves in
+// the way named by Kind.
+type faultSpec struct {
+	Index int    `json:"index"`
+	Site  string `json:"site"`
+	Kind  string `json:"kind"`
 }
 
-func noFaults() *faultPlan { return &faultPlan{failAt: -1} }
+// faultPlan numbers every fallible call the pool makes into its
+// environment (device I/O, hole source, base pool, allocator) and makes
+// the calls whose index is listed in faults misbehave (one fault, or two
+// in the two-fault runs). A nil plan injects nothing and counts nothing:
+// that is what the fakes get in the concurrent test, where they are
+// called from several goroutines.
+type faultPlan struct {
+	faults []faultSpec
+	n      int
+	sites  []string    // site of every counted call, by index
+	fired  []faultSpec // the faults that have fired so far, in order, with the site they hit
+	paused bool        // verification reads of the harness itself are not counted
+}
+
+func noFaults() *faultPlan { return &faultPlan{} }
 
 func (p *faultPlan) hit(site string) string {
-	if p.paused {
+	if p == nil || p.paused {
 		return ""
 	}
 	idx := p.n
 	p.n++
 	p.sites = append(p.sites, site)
-	if idx == p.failAt {
-		p.fired = true
-		return p.kind
+	for _, f := range p.faults {
+		if f.Index == idx {
+			p.fired = append(p.fired, faultSpec{Index: idx, Site: site, Kind: f.Kind})
+			return f.Kind
+		}
 	}
 	return ""
 }
@@ -44,7 +58,7 @@ func (p *faultPlan) hit(site string) string {
 var faultKinds = map[string][]string{
 	"dev.read":  {"err", "short"},
 	"dev.write": {"err", "short"},
-	"hs.read":   {"err"},
+	"hs.read":   {"err", "short"},
 	"hs.seek":   {"err"},
 	"hs.trunc":  {"err"},
 	"hs.close":  {"err"},
@@ -57,25 +71,45 @@ func injected(site string) error {
 }
 
 // problems collects violations that the fakes observe themselves (the
-// pool touching the environment in a way the property forbids).
+// pool touching the environment in a way the property forbids). The
+// mutex is taken only when a problem is recorded or the result is read,
+// so on the good path it orders nothing between goroutines.
 type problems struct {
+	mu    sync.Mutex
 	first string
+	bad   atomic.Bool // set with the first problem; polled by the goroutines of the concurrent test
 }
 
 func (p *problems) add(format string, args ...any) {
+	p.mu.Lock()
+	defer p.mu.Unlock()
+	p.bad.Store(true)
 	if p.first == "" {
 		p.first = fmt.Sprintf(format, args...)
 	}
 }
 
-// memDevice is a blockdevice.BlockDevice over a byte slice.
+func (p *problems) get() string {
+	p.mu.Lock()
+	defer p.mu.Unlock()
+	return p.first
+}
+
+// memDevice is a blockdevice.BlockDevice over a byte slice. Like the
+// memory-mapped device used in production it takes no lock: it is safe
+// for concurrent use as long as concurrent calls touch disjoint byte
+// ranges, which is exactly what the pool has to guarantee (a sector is
+// owned by one file at a time, and the hand-over of a sector from one
+// file to another goes through the allocator's lock). Two goroutines
+// touching the same bytes without that ordering is a C15 violation in
+// itself (a sector in two files at once), and the race detector, under
+// which the concurrent test runs, reports it as such. The device keeps no
+// mutable state besides the bytes.
 type memDevice struct {
 	data     []byte
-	plan     *faultPlan
+	plan     *faultPlan // nil in the concurrent test
 	prob     *problems
 	eofAtEnd bool // io.ReaderAt permits err == io.EOF for a full read that ends at the end of the source
-	reads    int
-	writes   int
 }
 
 func (d *memDevice) inRange(off int64, n int) bool {
@@ -83,7 +117,6 @@ func (d *memDevice) inRange(off int64, n int) bool {
 }
 
 func (d *memDevice) ReadAt(p []byte, off int64) (int, error) {
-	d.reads++
 	if !d.inRange(off, len(p)) {
 		d.prob.add("device read of %d bytes at %d lies outside the device of %d bytes", len(p), off, len(d.data))
 		return 0, status.Error(codes.Internal, "read outside device")
@@ -104,7 +137,6 @@ func (d *memDevice) ReadAt(p []byte, off int64) (int, error) {
 }
 
 func (d *memDevice) WriteAt(p []byte, off int64) (int, error) {
-	d.writes++
 	if !d.inRange(off, len(p)) {
 		d.prob.add("device write of %d bytes at %d lies outside the device of %d bytes", len(p), off, len(d.data))
 		return 0, status.Error(codes.Internal, "write outside device")
@@ -127,26 +159,58 @@ func (d *memDevice) Close() error { return nil }
 // spyAllocator sits between the file pool and the real allocator and
 // keeps the set of sectors currently handed out: the history invariant
 // "never handed out twice, returned exactly once".
+//
+// It is safe for concurrent use and deliberately takes no lock of its
+// own: holder[s] is compare-and-swapped from "free" to "held" AFTER the
+// real allocator handed sector s out and from "held" to "free" BEFORE the
+// sector is given back to the real allocator. Every legitimate history
+// (given back, then handed out again) therefore passes in any
+// interleaving, a sector that the real allocator hands to two callers is
+// seen by the second compare-and-swap, and the only ordering the spy
+// adds between goroutines is between those that touch the same sector.
+// In particular the real allocator's own lock stays contended, and
+// visible to the race detector, in the concurrent test.
 type spyAllocator struct {
-	base        pool.SectorAllocator
-	sectors     int
-	plan        *faultPlan
-	prob        *problems
-	outstanding map[uint32]int // sector -> owner (file generation) it was handed to
-	lastOwner   map[uint32]int // sector -> owner that held it before it was freed
-	curOwner    int
-	// statistics of the current case
+	base    pool.SectorAllocator
+	sectors int
+	plan    *faultPlan // nil in the concurrent test
+	prob    *problems
+	holder  []atomic.Int32 // holder[s], s in 1..sectors: 0 = free, owner+2 = handed out to that owner (file generation)
+
+	// The fields below are used by the sequential tests only.
+	concurrent bool
+	lastOwner  []int // lastOwner[s]: owner+2 that held sector s before it was freed, 0 = never
+	curOwner   int
 	calls      int
 	short      int // returned fewer sectors than asked although more were free
 	reusedXGen int // a sector freed by one file generation was handed to another
 }
 
 func newSpy(base pool.SectorAllocator, sectors int, plan *faultPlan, prob *problems) *spyAllocator {
-	return &spyAllocator{base: base, sectors: sectors, plan: plan, prob: prob, outstanding: map[uint32]int{}, lastOwner: map[uint32]int{}}
+	return &spyAllocator{base: base, sectors: sectors, plan: plan, prob: prob, holder: make([]atomic.Int32, sectors+1), lastOwner: make([]int, sectors+1)}
+}
+
+func (a *spyAllocator) outstandingCount() int {
+	n := 0
+	for s := 1; s <= a.sectors; s++ {
+		if a.holder[s].Load() != 0 {
+			n++
+		}
+	}
+	return n
+}
+
+func (a *spyAllocator) outstandingList() []int {
+	var l []int
+	for s := 1; s <= a.sectors; s++ {
+		if a.holder[s].Load() != 0 {
+			l = append(l, s)
+		}
+	}
+	return l
 }
 
 func (a *spyAllocator) AllocateContiguous(maximum int) (uint32, int, error) {
-	a.calls++
 	if maximum < 1 {
 		a.prob.add("AllocateContiguous(%d) called", maximum)
 	}
@@ -157,10 +221,19 @@ func (a *spyAllocator) AllocateContiguous(maximum int) (uint32, int, error) {
 	case "one":
 		ask = 1
 	}
+	owner := int32(2)
+	if !a.concurrent {
+		a.calls++
+		owner = int32(a.curOwner + 2)
+	}
 	first, n, err := a.base.AllocateContiguous(ask)
 	if err != nil {
-		if len(a.outstanding) < a.sectors {
-			a.prob.add("allocator reported exhaustion (%v) while only %d of %d sectors are handed out", err, len(a.outstanding), a.sectors)
+		// (Sequential only: under concurrency sectors may be on their
+		// way back, released here but not yet in the real allocator.)
+		if !a.concurrent {
+			if out := a.outstandingCount(); out < a.sectors {
+				a.prob.add("allocator reported exhaustion (%v) while only %d of %d sectors are handed out", err, out, a.sectors)
+			}
 		}
 		return first, n, err
 	}
@@ -174,28 +247,34 @@ func (a *spyAllocator) AllocateContiguous(maximum int) (uint32, int, error) {
 			a.prob.add("AllocateContiguous(%d) handed out sector %d, device has sectors 1..%d", ask, s, a.sectors)
 			continue
 		}
-		if _, dup := a.outstanding[s]; dup {
+		if !a.holder[s].CompareAndSwap(0, owner) {
 			a.prob.add("sector %d handed out twice", s)
 		}
-		if prev, ok := a.lastOwner[s]; ok && prev != a.curOwner {
-			a.reusedXGen++
+		if !a.concurrent {
+			if prev := a.lastOwner[s]; prev != 0 && prev != int(owner) {
+				a.reusedXGen++
+			}
 		}
-		a.outstanding[s] = a.curOwner
 	}
-	if n < maximum && len(a.outstanding) < a.sectors {
+	if !a.concurrent && n < maximum && a.outstandingCount() < a.sectors {
 		a.short++
 	}
 	return first, n, nil
 }
 
 func (a *spyAllocator) release(s uint32, how string) bool {
-	owner, ok := a.outstanding[s]
-	if !ok {
+	if s < 1 || int(s) > a.sectors {
+		a.prob.add("%s returned sector %d, device has sectors 1..%d", how, s, a.sectors)
+		return false
+	}
+	owner := a.holder[s].Load()
+	if owner == 0 || !a.holder[s].CompareAndSwap(owner, 0) {
 		a.prob.add("%s returned sector %d, which is not handed out (returned twice or never allocated)", how, s)
 		return false
 	}
-	delete(a.outstanding, s)
-	a.lastOwner[s] = owner
+	if !a.concurrent {
+		a.lastOwner[s] = int(owner)
+	}
 	return true
 }
 
@@ -228,27 +307,83 @@ func (a *spyAllocator) FreeList(sectors []uint32) {
 	}
 }
 
-func (a *spyAllocator) outstandingList() []int {
-	l := make([]int, 0, len(a.outstanding))
-	for s := range a.outstanding {
-		l = append(l, int(s))
-	}
-	sort.Ints(l)
-	return l
-}
-
 // faultyPool is the base pool as seen by the quota layer; its NewFile
-// can be made to fail.
+// can be made to fail, and with a meter it keeps count of what the quota
+// layer has let through.
 type faultyPool struct {
-	base pool.FilePool
-	plan *faultPlan
+	base  pool.FilePool
+	plan  *faultPlan // nil in the concurrent test
+	meter *quotaMeter
 }
 
 func (fp *faultyPool) NewFile(hs pool.HoleSource, size uint64) (filesystem.FileReadWriter, error) {
 	if fp.plan.hit("base.new") != "" {
 		return nil, injected("base.new")
 	}
-	return fp.base.NewFile(hs, size)
+	f, err := fp.base.NewFile(hs, size)
+	if err != nil || fp.meter == nil {
+		return f, err
+	}
+	fp.meter.add(&fp.meter.files, 1, fp.meter.maxFiles, "files")
+	fp.meter.add(&fp.meter.bytes, int64(size), fp.meter.maxBytes, "bytes")
+	return &meteredFile{FileReadWriter: f, meter: fp.meter, size: int64(size)}, nil
+}
+
+// quotaMeter counts, below the quota layer, the files that exist and the
+// sum of their sizes. The quota layer charges before it lets an
+// operation through and releases only after the base file has shrunk or
+// is closed, so at every instant and in every interleaving
+// (files, bytes) <= (what is charged) <= (the limits). A count above a
+// limit means the quota layer granted more than it has.
+type quotaMeter struct {
+	maxFiles, maxBytes int64
+	files, bytes       atomic.Int64
+	prob               *problems
+}
+
+func (m *quotaMeter) add(c *atomic.Int64, delta, limit int64, what string) {
+	if v := c.Add(delta); v > limit {
+		m.prob.add("the quota layer let through %d %s in total, the limit is %d", v, what, limit)
+	} else if v < 0 {
+		m.prob.add("harness: %s count below zero (%d)", what, v)
+	}
+}
+
+type meteredFile struct {
+	filesystem.FileReadWriter
+	meter *quotaMeter
+	size  int64
+}
+
+func (f *meteredFile) resize() {
+	l, err := f.FileReadWriter.Len()
+	if err != nil {
+		f.meter.prob.add("Len() of a base file failed: %v", err)
+		return
+	}
+	if l != f.size {
+		f.meter.add(&f.meter.bytes, l-f.size, f.meter.maxBytes, "bytes")
+		f.size = l
+	}
+}
+
+func (f *meteredFile) Truncate(size int64) error {
+	err := f.FileReadWriter.Truncate(size)
+	f.resize()
+	return err
+}
+
+func (f *meteredFile) WriteAt(p []byte, off int64) (int, error) {
+	n, err := f.FileReadWriter.WriteAt(p, off)
+	f.resize()
+	return n, err
+}
+
+func (f *meteredFile) Close() error {
+	err := f.FileReadWriter.Close()
+	f.meter.add(&f.meter.bytes, -f.size, f.meter.maxBytes, "bytes")
+	f.meter.add(&f.meter.files, -1, f.meter.maxFiles, "files")
+	return err
 }
 
 // hsSpec describes a non-default hole source: Len bytes of pattern data
@@ -275,13 +410,22 @@ func (s *hsSpec) content() ([]byte, []bool) {
 
 // fakeHoleSource implements pool.HoleSource as documented: reads never
 // return io.EOF, bytes past the end are null, Truncate removes data at
-// the end, GetNextRegionOffset behaves like a FileReader's.
+// the end, GetNextRegionOffset behaves like a FileReader's. It counts
+// its Close calls and reports a second Close and any use after Close
+// itself; that it is closed exactly once, by the Close of its file and
+// not earlier, is checked by the engine.
 type fakeHoleSource struct {
 	content []byte
 	isData  []bool
-	plan    *faultPlan
+	plan    *faultPlan // nil in the concurrent test
 	prob    *problems
 	closed  int
+}
+
+func (h *fakeHoleSource) live(what string) {
+	if h.closed > 0 {
+		h.prob.add("hole source: %s after it was closed", what)
+	}
 }
 
 func newFakeHoleSource(s *hsSpec, plan *faultPlan, prob *problems) *fakeHoleSource {
@@ -290,12 +434,28 @@ func newFakeHoleSource(s *hsSpec, plan *faultPlan, prob *problems) *fakeHoleSour
 }
 
 func (h *fakeHoleSource) ReadAt(p []byte, off int64) (int, error) {
+	h.live("ReadAt")
 	if off < 0 {
 		h.prob.add("hole source read at negative offset %d", off)
 		return 0, status.Error(codes.InvalidArgument, "negative offset")
 	}
-	if h.plan.hit("hs.read") != "" {
+	switch h.plan.hit("hs.read") {
+	case "err":
 		return 0, injected("hs.read")
+	case "short":
+		// io.ReaderAt: fewer bytes than asked for come with a non-nil
+		// error (and HoleSource: never io.EOF); the bytes delivered are
+		// the right ones. A short count with a nil error is outside the
+		// contract and not generated.
+		p = p[:len(p)/2]
+		for i := range p {
+			if x := off + int64(i); x < int64(len(h.content)) {
+				p[i] = h.content[x]
+			} else {
+				p[i] = 0
+			}
+		}
+		return len(p), injected("hs.read")
 	}
 	for i := range p {
 		x := off + int64(i)
@@ -309,6 +469,7 @@ func (h *fakeHoleSource) ReadAt(p []byte, off int64) (int, error) {
 }
 
 func (h *fakeHoleSource) Truncate(size int64) error {
+	h.live("Truncate")
 	if size < 0 {
 		h.prob.add("hole source truncated to negative size %d", size)
 		return status.Error(codes.InvalidArgument, "negative size")
@@ -324,6 +485,7 @@ func (h *fakeHoleSource) Truncate(size int64) error {
 }
 
 func (h *fakeHoleSource) GetNextRegionOffset(off int64, regionType filesystem.RegionType) (int64, error) {
+	h.live("GetNextRegionOffset")
 	if off < 0 {
 		h.prob.add("hole source seek at negative offset %d", off)
 		return 0, status.Error(codes.InvalidArgument, "negative offset")
@@ -356,6 +518,9 @@ func (h *fakeHoleSource) GetNextRegionOffset(off int64, regionType filesystem.Re
 
 func (h *fakeHoleSource) Close() error {
 	h.closed++
+	if h.closed > 1 {
+		h.prob.add("hole source closed %d times", h.closed)
+	}
 	if h.plan.hit("hs.close") != "" {
 		return injected("hs.close")
 	}
